@@ -42,7 +42,7 @@ UNIT_DEPS = {
     'roots': ['core', 'context', 'config', 'cmp', 'cbrt'],
     'cbrt': ['core', 'context', 'config', 'pow10', 'digits', 'insig', 'round', 'types'],
     'inverse': ['core', 'context', 'config'],
-    'prim_div': ['div', 'derived', 'conv', 'inverse'],
+    'prim_div': ['div', 'derived', 'conv', 'inverse', 'float'],
     'prec': ['round', 'digits', 'context', 'add', 'core'],
     'div': ['core', 'digits', 'config', 'cmp', 'derived', 'conv'],
     'toint': ['core', 'scale', 'pow10', 'conv'],
@@ -142,7 +142,10 @@ prop('C08', units=['div', 'prim_div', 'inverse', 'digits', 'core', 'config', 'po
                  'zero-numerator / unit-divisor / equal-integers shortcuts are exact, otherwise impl_division is called with the configured precision; '
                  'for all ten primitive integer types, by value and by reference, on either side and as /=: +-1 and +-2 are exact (identity / negation / exact half), '
                  '1/x routes to inverse(), everything else is the decimal division of the converted integer, and a return implies a non-zero divisor in EVERY one of these forms, 1 / x included (after two fix: commits, for /= 0 and for 1 / 0)'),
-     level_note=_NOTE_COMMON + ' get_rounding_term relies on float axiom A1. Float divisor forms (f32/f64 arms of impl_div_for_primitive) are not under contract (float comparisons are opaque to Verus).',
+     level_note=_NOTE_COMMON + (' get_rounding_term relies on float axiom A1. The ten float forms (f32/f64 x Div<f>, &Div<f>, f / BigDecimal, f / &BigDecimal, /= f) are under contract in the '
+                                'strength the verifier allows: the exec IEEE comparison `denom == 1.0` is specified one-directionally by vstd, so the contract cannot say which literal selects which shortcut; '
+                                'it pins the result to zero for a non-normal float and otherwise to {the value, its negation, the exact half, the negated half, the quotient by the EXACT decimal value of the float '
+                                '(f32_exact / f64_exact, C14) at the configured precision}; a zero decimal divisor never returns.'),
      technique=_TECH)
 
 prop('C09', units=['rem', 'scale', 'core', 'pow10'], level='proof',
